@@ -15,11 +15,15 @@ Ig(n) == [metadata |-> (n \div 1) % 2 = 1, ts_metadata |-> (n \div 2) % 2 = 1, t
 AsFn(r) == [c \in Comps |-> r[c]]
 \* identities and equality observations, checked when a case starts
 StaticFails(c) ==
-  {cl \in {"roundtrip", "equals_def", "assert_equals_agrees"} :
+  {cl \in {"roundtrip", "equals_def", "assert_equals_agrees", "treesequence_equals_def", "treesequence_assert_equals_agrees"} :
     ~ CASE cl = "roundtrip" -> \A i \in 1..Len(c.roundtrips) : c.roundtrips[i].same = 1
         [] cl = "equals_def" -> \A i \in 1..Len(c.eqs) : LET e == c.eqs[i] IN
                \A n \in 0..63 : (e.eq[n + 1] = 1) = Equals(AsFn(e.a), AsFn(e.b), Ig(n))
         [] cl = "assert_equals_agrees" -> \A i \in 1..Len(c.eqs) : c.eqs[i].eq = c.eqs[i].aeq
+        \* the same 64 evaluations through TreeSequence.equals / assert_equals (recorded when both collections are valid)
+        [] cl = "treesequence_equals_def" -> \A i \in 1..Len(c.eqs) : LET e == c.eqs[i] IN
+               e.tseq = <<>> \/ \A n \in 0..63 : (e.tseq[n + 1] = 1) = Equals(AsFn(e.a), AsFn(e.b), Ig(n))
+        [] cl = "treesequence_assert_equals_agrees" -> \A i \in 1..Len(c.eqs) : c.eqs[i].tseq = c.eqs[i].tsaeq
   }
 TInit == k = 1 /\ j = 0 /\ bad = StaticFails(C) /\ Init
 Ev == C.ops[j + 1]
